@@ -59,9 +59,19 @@ def supT(s, n):
     return z3.If(s == NONE, n, SupF(Tr(s), n))
 
 
+def back_mpos_at(s):
+    return [BackMpos(m) for m in mpos_at(s)]
+
+
 def back_step(s, b):
+    """adjoint of one forward step: transposed second half propagator, the transposed MPOs
+    in the REVERSE order of the forward pass (each on its own bond leg), transposed first half"""
     b = SupF(Tr(P2(s)), b)
-    b = ApplyMpos(b, BackMpos(MposL(s)))
+    bm = back_mpos_at(s)
+    for e in reversed(range(len(bm))):
+        single = [None] * len(bm)
+        single[e] = bm[e]
+        b = ApplyMpos(b, pack(single))
     b = SupF(Tr(P1(s)), b)
     b = supT(Post(s), b)
     return supT(Pre(s), b)
@@ -127,7 +137,7 @@ def grad_registry():
     def m_back_mpos(ip, args, kw):
         mpo_list, step = args
         from pyvc.lib import getitem
-        return BackMpos(pack(getitem(ip, mpo_list, step)))
+        return [BackMpos(m) for m in getitem(ip, mpo_list, step)]
 
     @model
     def m_deriv_mpos(ip, args, kw):
